@@ -14,7 +14,23 @@ pub struct Case {
     pub recs: Vec<Rec>,
     pub script: Vec<u8>,
     pub thread: Option<String>,
+    /// before the checked records, on the same thread, a record is encoded whose message panics half-way through
+    /// being formatted inside a width-constrained field (the caller catches it): nothing of it may resurface
+    #[serde(default)]
+    pub prior_unwind: Option<u8>,
 }
+
+struct PanicsHalfWay;
+
+impl std::fmt::Display for PanicsHalfWay {
+    fn fmt(&self, f: &mut std::fmt::Formatter) -> std::fmt::Result {
+        f.write_str("STALE-")?;
+        f.write_str("TEXT")?;
+        panic!("Display impl of a log argument panics half-way")
+    }
+}
+
+const UNWIND_PATTERNS: [&str; 6] = ["{m:>12}", "{({l} {m}):>20}", "{m:<12}", "{m:.5}", "{h({m}):>9}", "{({m:>7}{m}):>30.40}"];
 
 pub fn strategy(spec_weight: f64) -> impl Strategy<Value = Case> {
     (
@@ -22,8 +38,9 @@ pub fn strategy(spec_weight: f64) -> impl Strategy<Value = Case> {
         prop::collection::vec(rec(), 1..=2),
         write_script(),
         prop::option::weighted(0.15, prop::sample::select(vec!["worker-1", "é thread", "t{}"]).prop_map(|s| s.to_string())),
+        prop::option::weighted(0.12, 0u8..6),
     )
-        .prop_map(|(pat, recs, script, thread)| Case { pat, recs, script, thread })
+        .prop_map(|(pat, recs, script, thread, prior_unwind)| Case { pat, recs, script, thread, prior_unwind })
 }
 
 fn now_secs() -> i64 {
@@ -56,6 +73,16 @@ pub fn check_in_thread(case: &Case, obs: &mut Obs, prop: &str) -> CaseResult {
         Ok(e) => e,
         Err(p) => return fail(format!("{}:panic:construct", prop), format!("PatternEncoder::new({:?}) panicked: {}", s_alt, p)),
     };
+    if let Some(k) = case.prior_unwind {
+        let p = UNWIND_PATTERNS[k as usize % UNWIND_PATTERNS.len()];
+        let e = PatternEncoder::new(p);
+        let r = catch(|| {
+            let mut w = CapW::new(vec![]);
+            log4rs::encode::Encode::encode(&e, &mut w, &log::Record::builder().args(format_args!("{}", PanicsHalfWay)).level(log::Level::Warn).target("t").build())
+        });
+        ensure!(r.is_err(), format!("{}:harness", prop), "the message that panics half-way did not panic under {:?}", p);
+        obs.class("after-an-encode-that-unwound-on-this-thread");
+    }
     let dated = has_date(&case.pat);
     for rec in &case.recs {
         let mut attempt = 0;
